@@ -21,6 +21,9 @@ Theorems about `Model/TextIO.lean`.
   cut into reader chunks of any sizes, zero- or one-based on both sides — reproduces `s.px`.
 * `pairs_any_layout`: the record parsed from a pairs line depends only on the values found at the
   declared columns, not on where the columns are.
+* `cloadPairs_eq_spec`: for any cutting into reader chunks, `cooler cload pairs` (per-chunk sanitize +
+  aggregate, then the C06 merge) stores one unit per retained record in its pixel — L1 = L0 — or is
+  rejected exactly when the specification rejects (away from known finding D13).
 * `parseFieldParam_spec`: grammar and refusals of `parse_field_param`.
 -/
 set_option linter.unusedSimpArgs false
@@ -1612,20 +1615,7 @@ example : pairsRec (α := Int) ["c0", "c1"] (pairsFields 4 1 0 6 []) none
 
 /-! ### the binning itself: L1 (`cloadPairs`) against L0 (`pairsSpec`) -/
 
-/-- the full statement: on a valid table, away from known finding D13, `cooler cload pairs` stores one
-unit per retained record in its pixel, whatever the reader chunks are.  NOT proved in full: what is
-missing is the algebra that merges per-chunk cell tables (`Sanitize.Cell`, signed keys, grouped in
-order of appearance) through `aggregateAll` (`Px`, natural keys) into the grouping of all records at
-once.  The correspondence evaluates both sides on every case and stops with an infrastructure error
-if they ever differ (`assert l1 == l0` in `harness/c16.py`). -/
-def cloadPairs_eq_spec_Statement : Prop :=
-  ∀ (o : PairsOpts) (bins : BinTable) (contigs : List String) (fields : List (String × Nat))
-    (value : Option String) (chunks : List (List (List (Val Int)))) (recs : List Sanitize.Rec),
-    Sanitize.TableOK bins → Bal.mapE (pairsRec contigs fields value) chunks.flatten = .ok recs →
-    Sanitize.atLength bins o.sanitize recs = false →
-    cloadPairs o bins contigs fields value chunks = pairsSpec o bins recs
-
-/-- what IS proved, per reader chunk: the chunk is accepted and its cell table holds, under every key,
+/-- per reader chunk (the full statement, for any chunking, is `cloadPairs_eq_spec` below): the chunk is accepted and its cell table holds, under every key,
 the number of retained records whose pixel it is; the counts add up to the number of retained records
 (C05 `sanitizeWith_sim`, `keyOf_eq_pixelOf`, `countAt_groupFirst`) -/
 theorem cloadPairs_eq_spec_partial (o : PairsOpts) (bins : BinTable) (hT : Sanitize.TableOK bins)
@@ -1663,6 +1653,547 @@ theorem cloadPairs_eq_spec_partial (o : PairsOpts) (bins : BinTable) (hT : Sanit
     rfl
 
 end pairs
+
+/-! ### `cloadPairs` (L1) = `pairsSpec` (L0), for any chunking -/
+
+section cloadspec
+open Cooler.Sanitize (Cell Key Rec Anchor bumpCell groupFirst groupCells countAt keyVals)
+
+/-! ### grouping in order of appearance: members, sums -/
+
+theorem mem_bumpCell {k : Key} {v : Int} {l : List Cell} {c : Cell} (h : c ∈ bumpCell k v l) :
+    c.k = k ∨ ∃ c' ∈ l, c'.k = c.k := by
+  induction l with
+  | nil => simp [bumpCell] at h; subst h; exact Or.inl rfl
+  | cons d l ih =>
+    unfold bumpCell at h
+    split at h
+    · rcases List.mem_cons.mp h with e | h
+      · subst e; exact Or.inl rfl
+      · exact Or.inr ⟨c, List.mem_cons_of_mem _ h, rfl⟩
+    · rcases List.mem_cons.mp h with e | h
+      · subst e; exact Or.inr ⟨c, List.mem_cons_self, rfl⟩
+      · rcases ih h with h | ⟨c', hc', e⟩
+        · exact Or.inl h
+        · exact Or.inr ⟨c', List.mem_cons_of_mem _ hc', e⟩
+
+theorem mem_foldl_bump (l : List (Key × Int)) (acc : List Cell) (c : Cell)
+    (h : c ∈ l.foldl (fun acc kv => bumpCell kv.1 kv.2 acc) acc) :
+    (∃ c' ∈ acc, c'.k = c.k) ∨ ∃ kv ∈ l, kv.1 = c.k := by
+  induction l generalizing acc with
+  | nil => exact Or.inl ⟨c, h, rfl⟩
+  | cons x l ih =>
+    rw [List.foldl_cons] at h
+    rcases ih _ h with ⟨c', hc', e⟩ | ⟨kv, hkv, e⟩
+    · rcases mem_bumpCell hc' with h1 | ⟨c'', hc'', e'⟩
+      · exact Or.inr ⟨x, List.mem_cons_self, by rw [← e, h1]⟩
+      · exact Or.inl ⟨c'', hc'', e'.trans e⟩
+    · exact Or.inr ⟨kv, List.mem_cons_of_mem _ hkv, e⟩
+
+theorem sumAt_bumpCell (k : Key) (v : Int) (l : List Cell) (k' : Key) :
+    Sanitize.sumAt (bumpCell k v l) k' = Sanitize.sumAt l k' + if k = k' then v else 0 := by
+  induction l with
+  | nil => simp [bumpCell, Sanitize.sumAt]
+  | cons d l ih =>
+    unfold bumpCell
+    split
+    · rename_i h; subst h
+      simp only [Sanitize.sumAt]
+      split <;> omega
+    · simp only [Sanitize.sumAt, ih]; omega
+
+theorem sumAt_foldl_bump (l : List (Key × Int)) (acc : List Cell) (k : Key) :
+    Sanitize.sumAt (l.foldl (fun acc kv => bumpCell kv.1 kv.2 acc) acc) k
+      = Sanitize.sumAt acc k + C05.sumOf l k := by
+  induction l generalizing acc with
+  | nil => simp [C05.sumOf]
+  | cons x l ih =>
+    rw [List.foldl_cons, ih, sumAt_bumpCell]
+    simp only [C05.sumOf]; omega
+
+theorem sumOf_append (a b : List (Key × Int)) (k : Key) :
+    C05.sumOf (a ++ b) k = C05.sumOf a k + C05.sumOf b k := by
+  induction a with
+  | nil => simp [C05.sumOf]
+  | cons x a ih => simp only [List.cons_append, C05.sumOf, ih]; omega
+
+theorem sumOf_perm {a b : List (Key × Int)} (h : a.Perm b) (k : Key) : C05.sumOf a k = C05.sumOf b k := by
+  induction h with
+  | nil => rfl
+  | cons x _ ih => simp only [C05.sumOf, ih]
+  | swap x y l => simp only [C05.sumOf]; omega
+  | trans _ _ ih1 ih2 => rw [ih1, ih2]
+
+/-- a cell table summarises a list of `(key, value)` records: no invented key, per-key record count,
+per-key value total -/
+structure Summ (cells : List Cell) (l : List (Key × Int)) : Prop where
+  keys : ∀ c ∈ cells, ∃ kv ∈ l, kv.1 = c.k
+  cnt : ∀ k, countAt cells k = l.countP (fun kv => kv.1 = k)
+  sm : ∀ k, Sanitize.sumAt cells k = C05.sumOf l k
+
+theorem summ_groupFirst (l : List (Key × Int)) : Summ (groupFirst l) l := by
+  refine ⟨?_, ?_, ?_⟩
+  · intro c hc
+    rcases mem_foldl_bump l [] c hc with ⟨c', hc', _⟩ | h
+    · simp at hc'
+    · exact h
+  · intro k; rw [C05.countAt_groupFirst, C05.countAt_groupCells]
+  · intro k
+    unfold groupFirst
+    rw [sumAt_foldl_bump]; simp [Sanitize.sumAt]
+
+theorem summ_groupCells (l : List (Key × Int)) : Summ (groupCells l) l :=
+  ⟨fun c hc => (C05.mem_groupCells_keys l c.k).mp ⟨c, hc, rfl⟩, fun k => C05.countAt_groupCells l k,
+    fun k => C05.sumAt_groupCells l k⟩
+
+theorem summ_perm {cells : List Cell} {l l' : List (Key × Int)} (h : Summ cells l) (hp : l.Perm l') :
+    Summ cells l' :=
+  ⟨fun c hc => by obtain ⟨kv, h1, h2⟩ := h.keys c hc; exact ⟨kv, hp.mem_iff.mp h1, h2⟩,
+    fun k => by rw [h.cnt k, hp.countP_eq], fun k => by rw [h.sm k, sumOf_perm hp k]⟩
+
+/-! ### cells with natural keys as pixels -/
+
+def NNkv (l : List (Key × Int)) : Prop := ∀ kv ∈ l, 0 ≤ kv.1.1 ∧ 0 ≤ kv.1.2
+def NNc (cells : List Cell) : Prop := ∀ c ∈ cells, 0 ≤ c.k.1 ∧ 0 ≤ c.k.2
+
+theorem key_toNat_iff {k : Key} (h : 0 ≤ k.1 ∧ 0 ≤ k.2) (i j : Nat) :
+    (k.1.toNat = i ∧ k.2.toNat = j) ↔ k = ((i : Int), (j : Int)) := by
+  constructor
+  · intro ⟨h1, h2⟩; ext <;> simp <;> omega
+  · intro e; subst e; simp
+
+theorem sumAt_cellsCount (cells : List Cell) (hn : NNc cells) (i j : Nat) :
+    Cooler.sumAt (cellsCount cells) i j = ((countAt cells ((i : Int), (j : Int)) : Nat) : Int) := by
+  induction cells with
+  | nil => simp [cellsCount, Cooler.sumAt, countAt]
+  | cons c rest ih =>
+    have ih' := ih (fun c hc => hn c (List.mem_cons_of_mem _ hc))
+    have hk := key_toNat_iff (hn c List.mem_cons_self) i j
+    simp only [cellsCount, List.map_cons, Cooler.sumAt, countAt] at ih' ⊢
+    rw [ih']
+    by_cases h : c.k = ((i : Int), (j : Int))
+    · simp [h, hk.mpr h]
+    · have : ¬ (c.k.1.toNat = i ∧ c.k.2.toNat = j) := fun h' => h (hk.mp h')
+      simp [h, this]
+
+theorem sumAt_cellsSum (cells : List Cell) (hn : NNc cells) (i j : Nat) :
+    Cooler.sumAt (cellsSum cells) i j = Sanitize.sumAt cells ((i : Int), (j : Int)) := by
+  induction cells with
+  | nil => simp [cellsSum, Cooler.sumAt, Sanitize.sumAt]
+  | cons c rest ih =>
+    have ih' := ih (fun c hc => hn c (List.mem_cons_of_mem _ hc))
+    have hk := key_toNat_iff (hn c List.mem_cons_self) i j
+    simp only [cellsSum, List.map_cons, Cooler.sumAt, Sanitize.sumAt] at ih' ⊢
+    rw [ih']
+    by_cases h : c.k = ((i : Int), (j : Int))
+    · simp [h, hk.mpr h]
+    · have : ¬ (c.k.1.toNat = i ∧ c.k.2.toNat = j) := fun h' => h (hk.mp h')
+      simp [h, this]
+
+theorem hasKey_cells (f : Cell → Int) (cells : List Cell) (hn : NNc cells) (i j : Nat) :
+    hasKey (cells.map fun c => (⟨c.k.1.toNat, c.k.2.toNat, f c⟩ : Px)) i j ↔
+      ∃ c ∈ cells, c.k = ((i : Int), (j : Int)) := by
+  unfold hasKey
+  constructor
+  · rintro ⟨p, hp, h1, h2⟩
+    obtain ⟨c, hc, rfl⟩ := List.mem_map.mp hp
+    exact ⟨c, hc, (key_toNat_iff (hn c hc) i j).mp ⟨h1, h2⟩⟩
+  · rintro ⟨c, hc, e⟩
+    have := (key_toNat_iff (hn c hc) i j).mpr e
+    exact ⟨_, List.mem_map_of_mem hc, this.1, this.2⟩
+
+theorem strictSorted_cells (f : Cell → Int) (cells : List Cell) (hs : C05.SortedCells cells) (hn : NNc cells) :
+    StrictSorted (cells.map fun c => (⟨c.k.1.toNat, c.k.2.toNat, f c⟩ : Px)) := by
+  unfold StrictSorted C05.SortedCells at *
+  rw [List.pairwise_map]
+  apply hs.imp_of_mem
+  intro a b ha hb hab
+  have := hn a ha
+  have := hn b hb
+  unfold Sanitize.klt at hab
+  unfold keyLt
+  simp only []
+  omega
+
+/-- the two pixel tables `(pc, ps)` carry, under every natural key, the record count and the value
+total of the record list `l`, and exactly its keys -/
+structure PxSumm (pc ps : Pixels) (l : List (Key × Int)) : Prop where
+  cs : ∀ i j : Nat, Cooler.sumAt pc i j = ((l.countP (fun kv => kv.1 = ((i : Int), (j : Int))) : Nat) : Int)
+  ck : ∀ i j : Nat, hasKey pc i j ↔ ∃ kv ∈ l, kv.1 = ((i : Int), (j : Int))
+  ss : ∀ i j : Nat, Cooler.sumAt ps i j = C05.sumOf l ((i : Int), (j : Int))
+  sk : ∀ i j : Nat, hasKey ps i j ↔ ∃ kv ∈ l, kv.1 = ((i : Int), (j : Int))
+
+theorem summ_nn {cells : List Cell} {l : List (Key × Int)} (h : Summ cells l) (hl : NNkv l) : NNc cells := by
+  intro c hc
+  obtain ⟨kv, h1, h2⟩ := h.keys c hc
+  rw [← h2]; exact hl kv h1
+
+theorem pxSumm_of_summ {cells : List Cell} {l : List (Key × Int)} (h : Summ cells l) (hl : NNkv l) :
+    PxSumm (cellsCount cells) (cellsSum cells) l := by
+  have hn := summ_nn h hl
+  have hkey : ∀ i j : Nat, (∃ c ∈ cells, c.k = ((i : Int), (j : Int))) ↔ ∃ kv ∈ l, kv.1 = ((i : Int), (j : Int)) := by
+    intro i j
+    constructor
+    · rintro ⟨c, hc, e⟩
+      obtain ⟨kv, h1, h2⟩ := h.keys c hc
+      exact ⟨kv, h1, h2.trans e⟩
+    · rintro ⟨kv, hkv, e⟩
+      apply Classical.byContradiction
+      intro hno
+      have h0 : countAt cells ((i : Int), (j : Int)) = 0 :=
+        C05.countAt_zero_of_not_mem (fun c hc e' => hno ⟨c, hc, e'⟩)
+      rw [h.cnt] at h0
+      have : 0 < l.countP (fun kv => kv.1 = ((i : Int), (j : Int))) :=
+        List.countP_pos_iff.mpr ⟨kv, hkv, by simpa using e⟩
+      omega
+  refine ⟨?_, ?_, ?_, ?_⟩
+  · intro i j; rw [sumAt_cellsCount cells hn, h.cnt]
+  · intro i j; rw [← hkey]; exact hasKey_cells (fun c => (c.n : Int)) cells hn i j
+  · intro i j; rw [sumAt_cellsSum cells hn, h.sm]
+  · intro i j; rw [← hkey]; exact hasKey_cells (fun c => c.s) cells hn i j
+
+theorem pxSumm_nil : PxSumm [] [] [] :=
+  ⟨fun _ _ => by simp [Cooler.sumAt], fun _ _ => by simp [hasKey], fun _ _ => by simp [Cooler.sumAt, C05.sumOf],
+    fun _ _ => by simp [hasKey]⟩
+
+theorem pxSumm_append {a b a' b' : Pixels} {l l' : List (Key × Int)} (h : PxSumm a b l) (h' : PxSumm a' b' l') :
+    PxSumm (a ++ a') (b ++ b') (l ++ l') := by
+  refine ⟨?_, ?_, ?_, ?_⟩
+  · intro i j; rw [sumAt_append, h.cs, h'.cs, List.countP_append]; omega
+  · intro i j; rw [hasKey_append, h.ck, h'.ck]
+    constructor
+    · rintro (⟨kv, h1, h2⟩ | ⟨kv, h1, h2⟩)
+      · exact ⟨kv, List.mem_append_left _ h1, h2⟩
+      · exact ⟨kv, List.mem_append_right _ h1, h2⟩
+    · rintro ⟨kv, h1, h2⟩
+      rcases List.mem_append.mp h1 with h1 | h1
+      · exact Or.inl ⟨kv, h1, h2⟩
+      · exact Or.inr ⟨kv, h1, h2⟩
+  · intro i j; rw [sumAt_append, h.ss, h'.ss, sumOf_append]
+  · intro i j; rw [hasKey_append, h.sk, h'.sk]
+    constructor
+    · rintro (⟨kv, h1, h2⟩ | ⟨kv, h1, h2⟩)
+      · exact ⟨kv, List.mem_append_left _ h1, h2⟩
+      · exact ⟨kv, List.mem_append_right _ h1, h2⟩
+    · rintro ⟨kv, h1, h2⟩
+      rcases List.mem_append.mp h1 with h1 | h1
+      · exact Or.inl ⟨kv, h1, h2⟩
+      · exact Or.inr ⟨kv, h1, h2⟩
+
+/-! ### reader chunks: parsing, anchors and retained records are additive -/
+
+theorem mapE_append_ok {β γ : Type} (f : β → Except Err γ) (a b : List β) (r : List γ)
+    (h : Bal.mapE f (a ++ b) = .ok r) :
+    ∃ ra rb, Bal.mapE f a = .ok ra ∧ Bal.mapE f b = .ok rb ∧ r = ra ++ rb := by
+  induction a generalizing r with
+  | nil => exact ⟨[], r, rfl, h, rfl⟩
+  | cons x xs ih =>
+    simp only [List.cons_append, Bal.mapE] at h ⊢
+    cases hx : f x with
+    | error e => simp [hx] at h
+    | ok y =>
+      simp only [hx] at h ⊢
+      cases hm : Bal.mapE f (xs ++ b) with
+      | error e => simp [hm] at h
+      | ok r' =>
+        simp only [hm] at h
+        obtain ⟨ra, rb, h1, h2, h3⟩ := ih r' hm
+        refine ⟨y :: ra, rb, by simp [h1], h2, ?_⟩
+        cases h; simp [h3]
+
+/-- parsing the concatenation succeeds iff every chunk parses; the records are the concatenation -/
+theorem mapE_flatten_ok {β γ : Type} (f : β → Except Err γ) (L : List (List β)) (r : List γ)
+    (h : Bal.mapE f L.flatten = .ok r) :
+    ∃ rs, Bal.mapE (Bal.mapE f) L = .ok rs ∧ rs.flatten = r := by
+  induction L generalizing r with
+  | nil => simp [Bal.mapE] at h; subst h; exact ⟨[], rfl, rfl⟩
+  | cons c cs ih =>
+    rw [List.flatten_cons] at h
+    obtain ⟨ra, rb, h1, h2, h3⟩ := mapE_append_ok f c cs.flatten r h
+    obtain ⟨rs, h4, h5⟩ := ih rb h2
+    exact ⟨ra :: rs, by simp [Bal.mapE, h1, h4], by simp [h5, h3]⟩
+
+/-- `Except` bind, spelled out -/
+def bindE {γ δ : Type} (x : Except Err γ) (g : γ → Except Err δ) : Except Err δ :=
+  match x with
+  | .error e => .error e
+  | .ok y => g y
+
+/-- a per-chunk function that first parses the chunk: over all chunks it is the rest of the function
+over the parsed chunks -/
+theorem mapE_comp_ok {β γ δ : Type} (h : β → Except Err γ) (g : γ → Except Err δ) (F : β → Except Err δ)
+    (hF : ∀ x, F x = bindE (h x) g)
+    (L : List β) (R : List γ) (hL : Bal.mapE h L = .ok R) : Bal.mapE F L = Bal.mapE g R := by
+  induction L generalizing R with
+  | nil => simp [Bal.mapE] at hL; subst hL; rfl
+  | cons x xs ih =>
+    simp only [Bal.mapE] at hL
+    cases hx : h x with
+    | error e => simp [hx] at hL
+    | ok y =>
+      cases hm : Bal.mapE h xs with
+      | error e => simp [hx, hm] at hL
+      | ok R' =>
+        simp [hx, hm] at hL
+        subst hL
+        simp only [Bal.mapE, hF x, hx, ih R' hm, bindE]
+
+theorem mapE_error_of {β γ : Type} (f : β → Except Err γ) (E : Err) (l : List β)
+    (h1 : ∀ x ∈ l, ∀ e, f x = .error e → e = E) (h2 : ∃ x ∈ l, ∃ e, f x = .error e) :
+    Bal.mapE f l = .error E := by
+  induction l with
+  | nil => obtain ⟨x, hx, _⟩ := h2; simp at hx
+  | cons x xs ih =>
+    simp only [Bal.mapE]
+    cases hx : f x with
+    | error e => rw [h1 x List.mem_cons_self e hx]
+    | ok y =>
+      have : ∃ x ∈ xs, ∃ e, f x = .error e := by
+        obtain ⟨z, hz, e, he⟩ := h2
+        rcases List.mem_cons.mp hz with rfl | hz
+        · rw [hx] at he; cases he
+        · exact ⟨z, hz, e, he⟩
+      simp only [ih (fun z hz => h1 z (List.mem_cons_of_mem _ hz)) this]
+
+theorem anchors_append (o : Sanitize.Opts) (a b : List Rec) :
+    Sanitize.anchors o (a ++ b) = Sanitize.anchors o a ++ Sanitize.anchors o b := by
+  unfold Sanitize.anchors; rw [List.filterMap_append]
+
+theorem retained_append (o : Sanitize.Opts) (a b : List Rec) :
+    Sanitize.retained o (a ++ b) = Sanitize.retained o a ++ Sanitize.retained o b := by
+  unfold Sanitize.retained
+  rw [anchors_append]
+  unfold Sanitize.orientAnchors
+  cases o.tril <;> simp
+
+theorem anchors_subset_flatten (o : Sanitize.Opts) (rss : List (List Rec)) (rk : List Rec) (h : rk ∈ rss) :
+    ∀ a ∈ Sanitize.anchors o rk, a ∈ Sanitize.anchors o rss.flatten := by
+  intro a ha
+  unfold Sanitize.anchors at *
+  rw [List.mem_filterMap] at ha ⊢
+  obtain ⟨r, hr, e⟩ := ha
+  exact ⟨r, List.mem_flatten.mpr ⟨rk, h, hr⟩, e⟩
+
+theorem anchors_mem_flatten (o : Sanitize.Opts) (rss : List (List Rec)) (a : Anchor)
+    (h : a ∈ Sanitize.anchors o rss.flatten) : ∃ rk ∈ rss, a ∈ Sanitize.anchors o rk := by
+  unfold Sanitize.anchors at *
+  rw [List.mem_filterMap] at h
+  obtain ⟨r, hr, e⟩ := h
+  obtain ⟨rk, h1, h2⟩ := List.mem_flatten.mp hr
+  exact ⟨rk, h1, List.mem_filterMap.mpr ⟨r, h2, e⟩⟩
+
+/-! ### one chunk -/
+
+/-- the per-chunk step after parsing -/
+def chunkOfRecs (o : PairsOpts) (bins : BinTable) (recs : List Rec) : Except Err (List Cell) :=
+  match Sanitize.sanitizeRecords bins o.sanitize recs with
+  | .error e => .error e
+  | .ok outs => .ok (Sanitize.aggregateRecords false outs)
+
+theorem pairsChunk_eq {α : Type} (o : PairsOpts) (bins : BinTable) (contigs : List String)
+    (fields : List (String × Nat)) (value : Option String) (rows : List (List (Val α))) :
+    pairsChunk o bins contigs fields value rows =
+      bindE (Bal.mapE (pairsRec contigs fields value) rows) (chunkOfRecs o bins) := by
+  unfold pairsChunk chunkOfRecs bindE
+  cases Bal.mapE (pairsRec contigs fields value) rows <;> rfl
+
+theorem tril_not_raise (o : PairsOpts) : o.sanitize.tril ≠ .raise ∧ o.sanitize.tril ≠ .bogus := by
+  cases hs : o.symm <;> cases hd : o.duplex <;> simp [PairsOpts.sanitize, hs, hd]
+
+theorem pixelOf_nonneg {bins : BinTable} {a : Anchor} {k : Key} (h : Sanitize.pixelOf bins a = some k) :
+    0 ≤ k.1 ∧ 0 ≤ k.2 := by
+  unfold Sanitize.pixelOf at h
+  cases h1 : Sanitize.binOf bins a.c1 a.a1 with
+  | none => simp [h1] at h
+  | some i =>
+    cases h2 : Sanitize.binOf bins a.c2 a.a2 with
+    | none => simp [h1, h2] at h
+    | some j =>
+      simp [h1, h2] at h
+      subst h
+      have := (C05.binOf_sound h1).2.1
+      have := (C05.binOf_sound h2).2.1
+      exact ⟨by assumption, by assumption⟩
+
+/-- the key/value list of the retained records of one batch -/
+def kvsOf (o : PairsOpts) (bins : BinTable) (recs : List Rec) : List (Key × Int) :=
+  (Sanitize.retained o.sanitize recs).map (Sanitize.keyOf bins (getBinsize bins))
+
+theorem kvsOf_append (o : PairsOpts) (bins : BinTable) (a b : List Rec) :
+    kvsOf o bins (a ++ b) = kvsOf o bins a ++ kvsOf o bins b := by
+  unfold kvsOf; rw [retained_append, List.map_append]
+
+theorem kvsOf_nn (o : PairsOpts) (bins : BinTable) (hT : Sanitize.TableOK bins) (recs : List Rec)
+    (hin : ∀ a ∈ Sanitize.anchors o.sanitize recs, a.inside bins) : NNkv (kvsOf o bins recs) := by
+  intro kv hkv
+  obtain ⟨a, ha, rfl⟩ := List.mem_map.mp hkv
+  have := C05.keyOf_eq_pixelOf hT (C05.binsize_truthful hT) (C05.orient_inside hin a ha)
+  exact pixelOf_nonneg this
+
+/-- a chunk whose records all lie inside their chromosomes is accepted, and its cell table summarises
+the keys and values of its retained records -/
+theorem chunk_inside (o : PairsOpts) (bins : BinTable) (recs : List Rec)
+    (hin : ∀ a ∈ Sanitize.anchors o.sanitize recs, a.inside bins) :
+    ∃ cells, chunkOfRecs o bins recs = .ok cells ∧ Summ cells (kvsOf o bins recs) := by
+  have hpipe := C05.pipeline_of_inside (getBinsize bins) o.sanitize hin
+  have ht := tril_not_raise o
+  rw [if_neg (fun h => ht.1 h.1), if_neg (fun h => ht.2 h.1)] at hpipe
+  obtain ⟨outs, ho, hperm⟩ := (C05.sanitizeWith_sim bins (getBinsize bins) o.sanitize recs).2 _ hpipe
+  have ho' : Sanitize.sanitizeRecords bins o.sanitize recs = .ok outs := ho
+  refine ⟨groupFirst (keyVals outs), ?_, summ_perm (summ_groupFirst _) hperm⟩
+  unfold chunkOfRecs
+  rw [ho']
+  rfl
+
+theorem specCounts_error (o : PairsOpts) (bins : BinTable) (recs : List Rec) (e : Err)
+    (h : Sanitize.specCounts bins o.sanitize recs = .error e) : e = .badInput := by
+  have ht := tril_not_raise o
+  unfold Sanitize.specCounts at h
+  split at h
+  · cases h; rfl
+  · rw [if_neg (fun h => ht.1 h.1), if_neg (fun h => ht.2 h.1)] at h
+    cases h
+
+/-- away from D13 a chunk is rejected exactly when the specification rejects it, with `BadInputError` -/
+theorem chunk_error (o : PairsOpts) (bins : BinTable) (hT : Sanitize.TableOK bins) (recs : List Rec)
+    (hno : Sanitize.atLength bins o.sanitize recs = false) :
+    (∀ e, chunkOfRecs o bins recs = .error e → e = .badInput) ∧
+    ((∃ a ∈ Sanitize.anchors o.sanitize recs, ¬ a.inside bins) → ∃ e, chunkOfRecs o bins recs = .error e) := by
+  have hagg := C05.aggregated_eq_spec hT o.sanitize rfl recs hno
+  unfold Sanitize.aggregated at hagg
+  constructor
+  · intro e he
+    unfold chunkOfRecs at he
+    cases hs : Sanitize.sanitizeRecords bins o.sanitize recs with
+    | ok outs => simp [hs] at he
+    | error e' =>
+      simp only [hs] at he hagg
+      cases he
+      exact specCounts_error o bins recs _ hagg.symm
+  · rintro ⟨a, ha, hna⟩
+    have hspec : Sanitize.specCounts bins o.sanitize recs = .error .badInput := by
+      unfold Sanitize.specCounts
+      have : (Sanitize.anchors o.sanitize recs).any (fun a => !decide (a.inside bins)) = true := by
+        rw [List.any_eq_true]; exact ⟨a, ha, by simp [hna]⟩
+      simp [this]
+    unfold chunkOfRecs
+    cases hs : Sanitize.sanitizeRecords bins o.sanitize recs with
+    | ok outs => simp only [hs, hspec] at hagg; cases hagg
+    | error e' => exact ⟨e', rfl⟩
+
+theorem atLength_chunk (o : PairsOpts) (bins : BinTable) (rss : List (List Rec))
+    (h : Sanitize.atLength bins o.sanitize rss.flatten = false) :
+    ∀ rk ∈ rss, Sanitize.atLength bins o.sanitize rk = false := by
+  intro rk hrk
+  unfold Sanitize.atLength at *
+  rw [List.any_eq_false] at h ⊢
+  intro a ha
+  exact h a (anchors_subset_flatten o.sanitize rss rk hrk a ha)
+
+/-! ### all chunks -/
+
+theorem chunks_inside (o : PairsOpts) (bins : BinTable) (hT : Sanitize.TableOK bins) (rss : List (List Rec))
+    (hin : ∀ a ∈ Sanitize.anchors o.sanitize rss.flatten, a.inside bins) :
+    ∃ cs, Bal.mapE (chunkOfRecs o bins) rss = .ok cs ∧
+      PxSumm (cs.map cellsCount).flatten (cs.map cellsSum).flatten (kvsOf o bins rss.flatten) := by
+  induction rss with
+  | nil => exact ⟨[], rfl, by simpa [kvsOf, Sanitize.retained, Sanitize.anchors, Sanitize.orientAnchors] using
+      (by cases o.sanitize.tril <;> exact pxSumm_nil)⟩
+  | cons rk rest ih =>
+    have hin1 : ∀ a ∈ Sanitize.anchors o.sanitize rk, a.inside bins := fun a ha =>
+      hin a (anchors_subset_flatten o.sanitize (rk :: rest) rk List.mem_cons_self a ha)
+    have hin2 : ∀ a ∈ Sanitize.anchors o.sanitize rest.flatten, a.inside bins := by
+      intro a ha
+      apply hin
+      rw [List.flatten_cons, anchors_append]
+      exact List.mem_append_right _ ha
+    obtain ⟨cells, h1, h2⟩ := chunk_inside o bins rk hin1
+    obtain ⟨cs, h3, h4⟩ := ih hin2
+    refine ⟨cells :: cs, by simp [Bal.mapE, h1, h3], ?_⟩
+    simp only [List.map_cons, List.flatten_cons, kvsOf_append]
+    exact pxSumm_append (pxSumm_of_summ h2 (kvsOf_nn o bins hT rk hin1)) h4
+
+/-- **cloadPairs_eq_spec**: on a valid bin table, for ANY cutting of the pairs file into reader chunks,
+if every line parses and no record sits exactly at its chromosome's length (known finding D13),
+`cooler cload pairs` — per chunk: parse, sanitize, aggregate in order of appearance; then merge the
+per-chunk tables (`aggregateAll`, C06) — stores exactly what the specification says: one unit per
+retained record in the pixel of its two anchors (and the per-pixel sums of the value field), or is
+rejected with `BadInputError` exactly when some record lies outside its chromosome. -/
+theorem cloadPairs_eq_spec {α : Type} (o : PairsOpts) (bins : BinTable) (contigs : List String)
+    (fields : List (String × Nat)) (value : Option String) (chunks : List (List (List (Val α))))
+    (recs : List Rec) (hT : Sanitize.TableOK bins)
+    (hrec : Bal.mapE (pairsRec contigs fields value) chunks.flatten = .ok recs)
+    (hno : Sanitize.atLength bins o.sanitize recs = false) :
+    cloadPairs o bins contigs fields value chunks = pairsSpec o bins recs := by
+  obtain ⟨rss, hrss, hflat⟩ := mapE_flatten_ok _ chunks recs hrec
+  subst hflat
+  have hmap : Bal.mapE (pairsChunk o bins contigs fields value) chunks = Bal.mapE (chunkOfRecs o bins) rss :=
+    mapE_comp_ok _ (chunkOfRecs o bins) _ (pairsChunk_eq o bins contigs fields value) chunks rss hrss
+  unfold cloadPairs
+  rw [hmap]
+  have ht := tril_not_raise o
+  by_cases hin : ∀ a ∈ Sanitize.anchors o.sanitize rss.flatten, a.inside bins
+  · obtain ⟨cs, h1, h2⟩ := chunks_inside o bins hT rss hin
+    rw [h1]
+    -- the specification side
+    have hs1 : (Sanitize.anchors o.sanitize rss.flatten).any (fun a => !decide (a.inside bins)) = false := by
+      rw [List.any_eq_false]; intro a ha; simp [hin a ha]
+    have hkv : (Sanitize.retained o.sanitize rss.flatten).filterMap
+        (fun a => (Sanitize.pixelOf bins a).map fun k => (k, a.v)) = kvsOf o bins rss.flatten := by
+      unfold kvsOf
+      apply C05.filterMap_eq_map_of
+      intro a ha
+      rw [C05.keyOf_eq_pixelOf hT (C05.binsize_truthful hT) (C05.orient_inside hin a ha)]
+      rfl
+    have hspec : pairsSpec o bins rss.flatten =
+        .ok (cellsCount (groupCells (kvsOf o bins rss.flatten)), cellsSum (groupCells (kvsOf o bins rss.flatten))) := by
+      unfold pairsSpec Sanitize.specCounts
+      simp only [hs1, Bool.false_eq_true, if_false]
+      rw [if_neg (fun h => ht.1 h.1), if_neg (fun h => ht.2 h.1), hkv]
+    rw [hspec]
+    have hnn := kvsOf_nn o bins hT rss.flatten hin
+    have hS := summ_groupCells (kvsOf o bins rss.flatten)
+    have hP := pxSumm_of_summ hS hnn
+    have hnc := summ_nn hS hnn
+    have e1 : cellsCount (groupCells (kvsOf o bins rss.flatten)) = Unordered.aggregateAll (cs.map cellsCount) := by
+      unfold Unordered.aggregateAll
+      apply groupSum_eq_of
+      · exact strictSorted_cells (fun c => (c.n : Int)) _ (C05.groupCells_sorted _) hnc
+      · intro i j; rw [hP.ck, h2.ck]
+      · intro i j; rw [hP.cs, h2.cs]
+    have e2 : cellsSum (groupCells (kvsOf o bins rss.flatten)) = Unordered.aggregateAll (cs.map cellsSum) := by
+      unfold Unordered.aggregateAll
+      apply groupSum_eq_of
+      · exact strictSorted_cells (fun c => c.s) _ (C05.groupCells_sorted _) hnc
+      · intro i j; rw [hP.sk, h2.sk]
+      · intro i j; rw [hP.ss, h2.ss]
+    simp only [e1, e2]
+  · have hex : ∃ a ∈ Sanitize.anchors o.sanitize rss.flatten, ¬ a.inside bins := by
+      apply Classical.byContradiction
+      intro hne
+      apply hin
+      intro a ha
+      apply Classical.byContradiction
+      intro hna
+      exact hne ⟨a, ha, hna⟩
+    obtain ⟨a, ha, hna⟩ := hex
+    have hspec : pairsSpec o bins rss.flatten = .error .badInput := by
+      unfold pairsSpec Sanitize.specCounts
+      have : (Sanitize.anchors o.sanitize rss.flatten).any (fun a => !decide (a.inside bins)) = true := by
+        rw [List.any_eq_true]; exact ⟨a, ha, by simp [hna]⟩
+      simp [this]
+    rw [hspec]
+    have hat := atLength_chunk o bins rss hno
+    obtain ⟨rk, hrk, hak⟩ := anchors_mem_flatten o.sanitize rss a ha
+    have herr : Bal.mapE (chunkOfRecs o bins) rss = .error .badInput := by
+      apply mapE_error_of
+      · intro r hr e he
+        exact (chunk_error o bins hT r (hat r hr)).1 e he
+      · obtain ⟨e, he⟩ := (chunk_error o bins hT rk (hat rk hrk)).2 ⟨a, hak, hna⟩
+        exact ⟨rk, hrk, e, he⟩
+    rw [herr]
+
+end cloadspec
 
 /-! ## 5. `parse_field_param` -/
 
